@@ -50,10 +50,19 @@ fn gen_path(rng: &mut Rng, n: usize, mode: Mode) -> Vec<Coord<f64>> {
         Mode::Exact => {
             // power-of-two scale and integer offset keep lengths rational
             let scale = *rng.pick(&[1.0, 1.0, 1.0, 0.5, 0.25, 2.0, 8.0]);
-            let (ox, oy) = if rng.chance(1, 4) {
+            let (mut ox, mut oy) = if rng.chance(1, 4) {
                 (rng.range(-100, 100) as f64, rng.range(-100, 100) as f64)
             } else {
                 (rng.range(0, 4) as f64, rng.range(0, 4) as f64)
+            };
+            // one path in eight at a tiny or huge dyadic scale about the origin (segments far shorter than
+            // sqrt(epsilon), or far longer than 2^26): everything stays exactly representable
+            let scale = if rng.chance(1, 8) {
+                ox = 0.0;
+                oy = 0.0;
+                2f64.powi(*rng.pick(&[-60, -40, -30, -27, -20, 20, 40]))
+            } else {
+                scale
             };
             let (mut x, mut y) = (0i64, 0i64);
             for i in 0..n {
